@@ -2,7 +2,7 @@
 C02 (decoders are total): checked-index models of the GPOS subtable readers of lookup types 1–3
 `readGpos1_1`, `readGpos1_2`, `readGpos2_1`, `readGpos2_2`, `readGpos3_1`
 (opentype/gtab/gpos.go:85-740) with `readValueRecord` (valuerecord.go:46-106), of the dispatcher
-`readGposSubtable` (gpos.go:34-54), of `anchor.Read` (opentype/anchor/anchor.go:35-59) and of
+`readGposSubtable` (gpos.go:34-54, as repaired in /repo 8867078), of `anchor.Read` (opentype/anchor/anchor.go:35-59) and of
 `markarray.Read` (opentype/markarray/markarray.go:36-71), as the code stands in the working tree.
 
 The parser is a plain byte view (theorem C17): the models take the whole byte string and the
@@ -15,7 +15,7 @@ readers are entered by `readGposSubtable` right after the format word: their fir
 Checked sites: every `p.ReadBytes(k)`, every `buf[k]`, every `make`, the slices
 `valueRecords[:len(cov)]`, `pairSetOffsets[:len(cov)]`, `records[:len(cov)]`,
 `records[i*c2:(i+1)*c2]`, and the data-dependent indices `adjust[i]` (gpos.go:338, 343, 555),
-`records[i]` (gpos.go:533), `offsets[2*i]`, `offsets[2*i+1]` (gpos.go:711-718), `res[i]`,
+`records[i]` (gpos.go:533), `offsets[2*i]`, `offsets[2*i+1]` (gpos.go:715-722), `res[i]`,
 `offsets[i]` (markarray.go:53-65): slices that Go `make`s and then fills by index are lists of
 the made length filled with `setAt` (panic when the index is outside).  The slices filled by
 `for i := range xs` (`valueRecords`, `pairSetOffsets`, 3.1 `offsets`, 3.1 `records`) are
@@ -275,29 +275,29 @@ def anchorOpt (b : Bytes) (pos off : Nat) (c : Cost) : Outcome (Anchor × Cost) 
     pure (a.1, cadd c a.2)
   else .ok ((0, 0), c)
 
-/-- gpos.go:710-723 -/
+/-- gpos.go:714-727 -/
 def eeLoop (b : Bytes) (pos : Nat) (offsets : List Nat) : Nat → Nat → List (Anchor × Anchor) →
     Cost → Outcome (List (Anchor × Anchor) × Cost)
   | 0, _, acc, c => .ok (acc.reverse, c)
   | fuel+1, i, acc, c => do
-    let o1 ← idx "gpos.go:711#offsets[2*i]" offsets (2 * i)
+    let o1 ← idx "gpos.go:715#offsets[2*i]" offsets (2 * i)
     let e ← anchorOpt b pos o1 c.tick
-    let o2 ← idx "gpos.go:717#offsets[2*i+1]" offsets (2 * i + 1)
+    let o2 ← idx "gpos.go:721#offsets[2*i+1]" offsets (2 * i + 1)
     let x ← anchorOpt b pos o2 e.2
     eeLoop b pos offsets fuel (i + 1) ((e.1, x.1) :: acc) x.2
 
 /-- `readGpos3_1(p, subtablePos)` -/
 def read31 (b : Bytes) (pos : Nat) :
     Outcome ((List (Nat × Nat) × List (Anchor × Anchor)) × Cost) := do
-  let buf ← readBytes "gpos.go:694#ReadBytes(4)" b (pos + 2) 4
-  let covOff ← w16 "gpos.go:698#buf[0],buf[1]" buf 0
-  let n ← w16 "gpos.go:699#buf[2],buf[3]" buf 2
-  let c ← mkSlice "gpos.go:701#make([]uint16, 2*entryExitCount)" (2 * n) Cost.zero.tick
-  let o ← readWords "gpos.go:703#ReadUint16" b (2 * n) (pos + 6) [] c
-  let c ← mkSlice "gpos.go:709#make([]EntryExitRecord, entryExitCount)" n o.2
+  let buf ← readBytes "gpos.go:698#ReadBytes(4)" b (pos + 2) 4
+  let covOff ← w16 "gpos.go:702#buf[0],buf[1]" buf 0
+  let n ← w16 "gpos.go:703#buf[2],buf[3]" buf 2
+  let c ← mkSlice "gpos.go:705#make([]uint16, 2*entryExitCount)" (2 * n) Cost.zero.tick
+  let o ← readWords "gpos.go:707#ReadUint16" b (2 * n) (pos + 6) [] c
+  let c ← mkSlice "gpos.go:713#make([]EntryExitRecord, entryExitCount)" n o.2
   let r ← eeLoop b pos o.1 n 0 [] c
   let cv ← coverageRead b (pos + covOff)
-  let p ← prune "gpos.go:731#records[:len(cov)]" cv.1 r.1 (cadd r.2 cv.2)
+  let p ← prune "gpos.go:735#records[:len(cov)]" cv.1 r.1 (cadd r.2 cv.2)
   pure (p.1, p.2.mem 1)
 
 /-! ## readGposSubtable -/
@@ -312,13 +312,8 @@ inductive Sub where
 /-- the keys of `gposReaders` (gpos.go:57-73) whose readers are not modelled here -/
 def otherKeys : List Nat := [41, 51, 61, 71, 72, 73, 81, 82, 83, 91]
 
-/-- `readGposSubtable(p, pos, meta)`: the key `10*meta.LookupType+format` is computed in uint16
-(it wraps: lookup type 3 with format 65517 selects `readGpos1_1`; lookup type 1 with format 11
-selects `readGpos2_1`).  A key of a reader outside this group yields `err "other"`. -/
-def readSubtable (b : Bytes) (pos tp : Nat) : Outcome (Sub × Cost) := do
-  let format ← readU16 "gpos.go:40#ReadUint16" b pos
-  -- gpos.go:45 `gposReaders[10*meta.LookupType+format]` (map read: cannot panic)
-  let key := (10 * (tp % 65536) + format) % 65536
+/-- the dispatch on the key, shared by the repaired and the old dispatcher -/
+def dispatchKey (b : Bytes) (pos key : Nat) : Outcome (Sub × Cost) :=
   if key = 11 then do
     let r ← read11 b pos
     pure (.s11 r.1.1 r.1.2, r.2.tick)
@@ -336,5 +331,24 @@ def readSubtable (b : Bytes) (pos tp : Nat) : Outcome (Sub × Cost) := do
     pure (.s31 r.1.1 r.1.2, r.2.tick)
   else if otherKeys.contains key then .err "other"
   else .err "invalid"
+
+/-- `readGposSubtable(p, pos, meta)` as repaired in /repo 8867078 (gpos.go:45-46): the key
+`10*meta.LookupType+format` is still computed in uint16, but lookup types and formats above 9 are
+rejected, so the key cannot wrap or collide (`meta.LookupType` is a uint16: `tp % 65536`).  A key of
+a reader outside this group (lookup types 4–9) yields `err "other"`. -/
+def readSubtable (b : Bytes) (pos tp : Nat) : Outcome (Sub × Cost) := do
+  let format ← readU16 "gpos.go:40#ReadUint16" b pos
+  -- gpos.go:45 `gposReaders[10*meta.LookupType+format]` (map read: cannot panic)
+  let key := (10 * (tp % 65536) + format) % 65536
+  -- gpos.go:46 `if !ok || meta.LookupType > 9 || format > 9 { return invalid }`
+  if tp % 65536 > 9 ∨ format > 9 then .err "invalid"
+  else dispatchKey b pos key
+
+/-- `readGposSubtable` BEFORE the repair (kept only to state the finding): no range check, the
+uint16 key wraps and collides — lookup type 3 with format 65517 selected `readGpos1_1`, lookup
+type 1 with format 11 `readGpos2_1` -/
+def readSubtableOld (b : Bytes) (pos tp : Nat) : Outcome (Sub × Cost) := do
+  let format ← readU16 "gpos.go:40#ReadUint16" b pos
+  dispatchKey b pos ((10 * (tp % 65536) + format) % 65536)
 
 end SfntV.Total.GposSub
